@@ -3,6 +3,7 @@
 //	vhttp routes [-repo /repo]                      schema of every registered route, derived from the current tree
 //	vhttp http   -in cases.json -out results.json   replay TLC's (route shape, mutation) cases as concrete requests
 //	vhttp fs     -in cases.json -out results.json   replay TLC's file-system behaviours next to a sentinel tree
+//	vhttp seq    -in cases.json -out results.json   replay TLC's store-then-read cases (values of every JSON type under special keys)
 //
 // Exit 2 with "harness outdated" when the tree has a route / field this harness cannot classify.
 package main
@@ -19,7 +20,7 @@ import (
 
 func main() {
 	if len(os.Args) < 2 {
-		fmt.Fprintln(os.Stderr, "usage: vhttp routes|http|fs [flags]")
+		fmt.Fprintln(os.Stderr, "usage: vhttp routes|http|fs|seq [flags]")
 		os.Exit(2)
 	}
 	var err error
@@ -30,6 +31,8 @@ func main() {
 		err = cmdHTTP(os.Args[2:])
 	case "fs":
 		err = cmdFS(os.Args[2:])
+	case "seq":
+		err = cmdSeq(os.Args[2:])
 	default:
 		err = fmt.Errorf("unknown command %q", os.Args[1])
 	}
@@ -77,5 +80,9 @@ func cmdRoutes(args []string) error {
 	if err != nil {
 		return err
 	}
-	return writeJSON(*out, map[string]any{"routes": routes, "limits": limits, "recovery_marker": marker, "shapes": shapes})
+	keys, err := vhttp.MetaKeys(*repo)
+	if err != nil {
+		return err
+	}
+	return writeJSON(*out, map[string]any{"routes": routes, "limits": limits, "recovery_marker": marker, "shapes": shapes, "meta_keys": keys})
 }
